@@ -265,6 +265,13 @@ def generate(rng, tier):
         if k % 2 == 1:
             lines = through_bus(lines)
         cases.append(('r%d' % k, lines))
+    # through the real frame loop: a TIMA overflow in every position relative to the end of a frame (TAC 4: one tick per 256
+    # machine cycles; the a-th case is shifted by a cycles, so exactly one overflows in the very last cycle of the frame),
+    # the request read back from IF after the frame
+    for a in range(256):
+        cases.append(('fr%d' % a, ['gb.newloop 0 0 0 0', 'gb.cyc 0 %d' % a, 'gb.w 0 65295 0', 'gb.w 0 65286 %d' % (a & 0x7f), 'gb.w 0 65285 187',
+                                   'gb.w 0 65287 4', 'gb.frames 0 1', 'gb.r 0 65295', 'gb.r 0 65285', 'gb.cyc 0 2', 'gb.r 0 65295', 'gb.r 0 65285',
+                                   'gb.frames 0 1', 'gb.r 0 65295', 'gb.obs 0']))
     INFO.clear()
     INFO.update(exhaustive=False,
                 input_distribution=dict(directed_window_cases=n_directed, enumerated_len_le3_cases=n_enum,
